@@ -29,7 +29,7 @@ class Prop(BaseProp):
     id = "C14"
     rule = ("lists of 3..7 trains (W5) x keyword settings (interval, max_tau, numeric MRTS, RI; 'auto' only between forms "
             "that see the same set of trains) x random index subsets in random order (never only identity prefixes): "
-            "f(a,b) vs f([a,b]) vs f(L, indices=[i,j]); f(*sub) vs f(sub) vs f(L, indices=idx) vs f_multi(L, indices=idx) "
+            "f(a,b) vs f([a,b]) vs f(L, indices=[i,j]); f(*sub) vs f(sub) vs f(L, indices=common.vary_indices(ctx, idx)) vs f_multi(L, indices=common.vary_indices(ctx, idx)) "
             "for the four profiles, four scalars, directionality values and four matrices - all identities between real "
             "executions. distinct = (interleaving word, keyword regime, index selection)")
     budget = {"quick": 500, "thorough": 50000}
@@ -95,11 +95,11 @@ class Prop(BaseProp):
                 r_args = ctx.call(fn, *sub, **kw)
                 eq(r_args, r_sub, "forms:%s:f(*sub)!=f(sub)" % name, "%s(*sub) vs %s(sub) kw=%r" % (name, name, kw))
             if not auto:
-                r_idx = ctx.call(fn, sts, indices=idx, **kw)
-                eq(r_idx, r_sub, "forms:%s:f(L,indices=idx)!=f(sub)" % name, "%s(L, indices=%r) vs %s(sub) kw=%r" % (name, idx, name, kw))
+                r_idx = ctx.call(fn, sts, indices=common.vary_indices(ctx, idx), **kw)
+                eq(r_idx, r_sub, "forms:%s:f(L,indices=common.vary_indices(ctx, idx))!=f(sub)" % name, "%s(L, indices=%r) vs %s(sub) kw=%r" % (name, idx, name, kw))
                 if name in MULTI:
-                    r_m = ctx.call(getattr(ps, MULTI[name]), sts, indices=idx, **kw)
-                    eq(r_m, r_sub, "forms:%s:f_multi(L,indices=idx)!=f(sub)" % name, "%s(L, indices=%r) vs %s(sub) kw=%r" % (MULTI[name], idx, name, kw))
+                    r_m = ctx.call(getattr(ps, MULTI[name]), sts, indices=common.vary_indices(ctx, idx), **kw)
+                    eq(r_m, r_sub, "forms:%s:f_multi(L,indices=common.vary_indices(ctx, idx))!=f(sub)" % name, "%s(L, indices=%r) vs %s(sub) kw=%r" % (MULTI[name], idx, name, kw))
 
         for name, kws in PROFILES:
             run(name, kws, False)
@@ -117,8 +117,8 @@ class Prop(BaseProp):
         if len(sub) >= 3:
             eq(ctx.call(ps.spike_directionality_values, *sub, **kw), v_sub, "forms:spike_directionality_values:f(*sub)!=f(sub)", "values(*sub) vs values(sub)")
         if not auto:
-            eq(ctx.call(ps.spike_directionality_values, sts, indices=idx, **kw), v_sub,
-               "forms:spike_directionality_values:f(L,indices=idx)!=f(sub)", "values(L, indices=%r) vs values(sub)" % (idx,))
+            eq(ctx.call(ps.spike_directionality_values, sts, indices=common.vary_indices(ctx, idx), **kw), v_sub,
+               "forms:spike_directionality_values:f(L,indices=common.vary_indices(ctx, idx))!=f(sub)", "values(L, indices=%r) vs values(sub)" % (idx,))
             eq(ctx.call(ps.spike_directionality_values, sts, indices=[i0, j0], **kw), v_ab,
                "forms:spike_directionality_values:f(a,b)!=f(L,indices=[i,j])", "values(L, indices=%r) vs values(a,b)" % ([i0, j0],))
         # matrices
@@ -131,8 +131,8 @@ class Prop(BaseProp):
             if auto:
                 continue
             m_sub = ctx.call(fn, sub, **kw)
-            m_idx = ctx.call(fn, sts, indices=idx, **kw)
-            eq(m_idx, m_sub, "forms:%s:f(L,indices=idx)!=f(sub)" % name, "%s(L, indices=%r) vs %s(sub) kw=%r" % (name, idx, name, kw))
+            m_idx = ctx.call(fn, sts, indices=common.vary_indices(ctx, idx), **kw)
+            eq(m_idx, m_sub, "forms:%s:f(L,indices=common.vary_indices(ctx, idx))!=f(sub)" % name, "%s(L, indices=%r) vs %s(sub) kw=%r" % (name, idx, name, kw))
 
 
 PROP = Prop()
